@@ -96,10 +96,18 @@ def build(v, with_values=True):
     uni = C.build_universe(v, 1, 2, 2, name_len=1, id_names=False, name_minlen=1)
     if with_values:
         for i, prop in enumerate(uni.props):
-            dtype, vals = VALUE_KINDS[v.choice("vkind%d" % i, len(VALUE_KINDS))]
+            # the first Property takes every value kind, the second one stays an int Property
+            dtype, vals = VALUE_KINDS[v.choice("vkind%d" % i, len(VALUE_KINDS))] if i == 0 else VALUE_KINDS[0]
             prop._values = []
             prop.dtype = dtype
             prop.values = vals
+        if v.bool("unnamed"):
+            # an object created without a name is named by its id; the name is content, the id is not
+            target = v.pick("unnamed.which", [uni.props[1], uni.secs[1]])
+            try:
+                target.name = None
+            except KeyError:
+                v.assume(False)
     uni.secs[0].definition = "d"
     uni.secs[0].sec_cardinality = (None, 5)
     uni.props[0].unit = "mV"
@@ -126,7 +134,7 @@ def build_fixed(v):
 
 @obligation("C11", "clone", shards=9, budget={"quick": 400, "thorough": 1200},
             expect=["document", "section", "property", "keep_id", "fresh_ids", "no_children"],
-            bounds="every ordered forest over 1 Document + 2 Sections + 2 Properties (54 shapes, split over the shards), symbolic names, Property values int / "
+            bounds="every ordered forest over 1 Document + 2 Sections + 2 Properties (54 shapes, split over the shards), symbolic names (one object optionally unnamed, i.e. named by its id), Property values int / "
                    "string / 2-tuple / none; clone root: any of the five objects; keep_id and children symbolic")
 def clone_ob(v):
     """clone(): detached, equal content, all sub-objects new, ids all fresh or all identical, children=False gives no children."""
